@@ -54,6 +54,82 @@ def reader_rewrites(sn):
 LEN_POST = "final(v)@.len() <= old(v)@.len()"
 
 
+# the fields in the order CPython's marshal.c lays them out; (binding in from_bytes, kind, tail spec that starts at this field)
+LAYOUT = [('argcount', 'u32', 't_arg'), ('posonlyargcount', 'opt32:8', 't_pos'), ('kwonlyargcount', 'u32', 't_kw'), ('nlocals', 'nopt32:11', 't_nloc'),
+          ('stacksize', 'u32', 't_stack'), ('flags', 'u32', 't_flags'), ('code', 'bytes', 't_code'), ('consts', 'consts', 't_consts'), ('names', 'strs', 't_names'),
+          ('(varnames, freevars, cellvars)', 'locals', 't_locals'), ('filename', 'str:false', 't_file'), ('name', 'str:true', 't_name'), ('qualname', 'optstr:11', 't_qual'),
+          ('firstlineno', 'u32', 't_first'), ('lnotab', 'bytes', 't_lnotab'), ('exceptiontable', 'optbytes:11', 't_exc')]
+
+
+def from_bytes_layout(csrc):
+    """class copy of CodeObj::from_bytes checked against the writer's layout: the element readers are replaced (R12) by ASSUMED decoders
+    that invert the element encoders, so what is proved is that reader and writer agree on the ORDER of the fields and on their
+    version-dependent PRESENCE."""
+    fl = Snippet(csrc.fn('from_bytes', impl=r'CodeObj'), 'CodeObj::from_bytes[layout]')
+    reader_rewrites(fl)
+    fl.rw('R4', r'v\.first\(\) != Some\(&\((DataTypePrefix::Code as u8)\)\)', r'w_first_ne(v, \1)', expect=1)
+    fl.rw('R4', r'python_ver\.minor >= Some\((\d+)\)', r'w_minor_ge(python_ver.minor, \1)')
+    fl.rw('R9', r'vec!\[\]', 'w_empty_vec()', expect='*')
+    byt = iter(['code', 'lnotab', 'exceptiontable'])
+    fl.rw('R12', r'des\.deserialize_bytes\(v\)\?', lambda m: 'des.w_dec_bytes(v, Ghost(c0.%s@))?' % next(byt), expect=3)
+    fl.rw('R12', r'des\.deserialize_const_vec\(v, python_ver, Some\("consts"\)\)\?', 'des.w_dec_consts(v, python_ver, Ghost(c0.consts@))?', expect=1)
+    fl.rw('R12', r'des\.deserialize_str_vec\(v, python_ver, Some\("names"\)\)\?', 'des.w_dec_strs(v, python_ver, Ghost(c0.names@))?', expect=1)
+    fl.rw('R12', r'des\.deserialize_locals\(v, python_ver\)\?', 'des.w_dec_locals(v, python_ver, Ghost(c0.varnames@), Ghost(c0.freevars@), Ghost(c0.cellvars@))?', expect=1)
+    fl.rw('R12', r'des\.deserialize_str\(v, python_ver, Some\("(filename|name|qualname)"\)\)\?',
+          lambda m: 'des.w_dec_str(v, python_ver, Ghost(c0.%s.bytes()), Ghost(%s))?' % (m.group(1), 'false' if m.group(1) == 'filename' else 'true'), expect=3, code_only=False)
+    fl.rename_fn('from_bytes__layout')
+    # ghost witnesses: the code object that was written and what follows it in the stream (a marked splice: ghost parameters only)
+    fl.insert_ghost_params("Ghost(c0): Ghost<CodeObj>, Ghost(rest0): Ghost<Seq<u8>>")
+    fl.contract("""requires old(v)@ == code_layout(c0, python_ver.minor) + rest0,   // what CodeObj::into_bytes writes (its contract), then anything
+    ensures final(v)@ == rest0,
+        res matches Ok(r) && {
+            let m = python_ver.minor;
+            &&& r.argcount == c0.argcount && r.kwonlyargcount == c0.kwonlyargcount && r.stacksize == c0.stacksize && r.flags == c0.flags && r.firstlineno == c0.firstlineno
+            &&& r.posonlyargcount == (if minor_ge(m, 8) { c0.posonlyargcount } else { 0 })
+            &&& r.nlocals == (if minor_ge(m, 11) { 0 } else { c0.nlocals })
+            &&& r.code@ == c0.code@ && r.consts@ == c0.consts@ && r.names@ == c0.names@
+            &&& r.varnames@ == c0.varnames@ && r.freevars@ == c0.freevars@ && r.cellvars@ == c0.cellvars@
+            &&& r.filename.bytes() == c0.filename.bytes() && r.name.bytes() == c0.name.bytes()
+            &&& r.qualname.bytes() == (if minor_ge(m, 11) { c0.qualname.bytes() } else { c0.name.bytes() })
+            &&& r.lnotab@ == c0.lnotab@
+            &&& r.exceptiontable@ == (if minor_ge(m, 11) { c0.exceptiontable@ } else { Seq::<u8>::empty() })
+        },""")
+    # its own solver process with a pruned context: a broken field order is then refuted in seconds instead of exhausting the limit
+    fl.kani_attrs("#[verifier::spinoff_prover]")
+    fl.body_prologue("let ghost m = python_ver.minor;\n        proof { lemma_layout_stream(c0, m, rest0); lemma_front(seq![0xE3u8], t_arg(c0, m, rest0)); }")
+    ENC = {'bytes': 'marshal_bytes(c0.%s@)', 'consts': 'consts_enc(c0.%s@, m)', 'strs': 'strs_enc(c0.%s@)'}
+    for k, (bind, kind, tail) in enumerate(LAYOUT):
+        nxt = LAYOUT[k + 1][2] + '(c0, m, rest0)' if k + 1 < len(LAYOUT) else 'rest0'
+        here = "%s(c0, m, rest0)" % tail
+        f = bind
+        if kind == 'u32':
+            step = "lemma_front32(c0.%s, %s);" % (f, nxt)
+        elif kind.startswith('opt32:') or kind.startswith('nopt32:'):
+            n = kind.split(':')[1]
+            cond = ("minor_ge(m, %s)" % n) if kind.startswith('opt32') else ("!minor_ge(m, %s)" % n)
+            step = "if %s { lemma_front32(c0.%s, %s); } else { assert(v@ =~= %s); }" % (cond, f, nxt, nxt)
+        elif kind in ENC:
+            step = "lemma_front(%s, %s);" % (ENC[kind] % f, nxt)
+        elif kind == 'locals':
+            step = "lemma_front(locals_enc(c0.varnames@, c0.freevars@, c0.cellvars@, m), %s);" % nxt
+        elif kind.startswith('str:'):
+            step = "lemma_front(marshal_str(c0.%s.bytes(), %s), %s);" % (f, kind.split(':')[1], nxt)
+        elif kind.startswith('optstr:'):
+            step = "if minor_ge(m, %s) { lemma_front(marshal_str(c0.%s.bytes(), true), %s); } else { assert(v@ =~= %s); }" % (kind.split(':')[1], f, nxt, nxt)
+        elif kind.startswith('optbytes:'):
+            step = "if minor_ge(m, %s) { lemma_front(marshal_bytes(c0.%s@), %s); } else { assert(v@ =~= %s); }" % (kind.split(':')[1], f, nxt, nxt)
+        first = "assert(v@ =~= %s);" % here if k == 0 else "assert(v@ == %s);" % here
+        fl.insert_at(r'let %s\s*=' % re.escape(bind), "        proof { %s %s }" % (first, step), where='before')
+    # the bindings hold the written fields (stated one by one, so that a wrong binding is refuted where it is, not searched for)
+    fl.insert_at(r'Ok\(CodeObj \{', """        proof {
+            assert(qualname.bytes() == (if minor_ge(m, 11) { c0.qualname.bytes() } else { c0.name.bytes() }));
+            assert(filename.bytes() == c0.filename.bytes() && name.bytes() == c0.name.bytes());
+            assert(exceptiontable@ == (if minor_ge(m, 11) { c0.exceptiontable@ } else { Seq::<u8>::empty() }));
+            assert(posonlyargcount == (if minor_ge(m, 8) { c0.posonlyargcount } else { 0 }) && nlocals == (if minor_ge(m, 11) { 0 } else { c0.nlocals }));
+        }""", where='before')
+    return fl
+
+
 def build(run):
     src = Source(run.repo, DESER)
     ssrc = Source(run.repo, SER)
@@ -158,6 +234,12 @@ def build(run):
     decreases old(v)@.len(), 0int,""" % LEN_POST)
     unit.add(fb)
     unit.raw("}\n")
+    unit.raw("} // verus!\n")
+    unit.raw_file(os.path.join(HERE, 'prelude_reader_layout.rs'))
+    unit.raw("verus! {\nimpl CodeObj {\n")
+    unit.add(from_bytes_layout(csrc))
+    unit.raw("}\n")
+    run.sample({"function": "CodeObj::from_bytes [class copy against the writer's layout]", "ensures": "on code_layout(c, minor) ++ rest (what CodeObj::into_bytes writes) it returns Ok with every field of c (posonlyargcount only from 3.8, nlocals only before 3.11, qualname = name before 3.11, exceptiontable empty before 3.11) and leaves rest: reader and writer agree on the order and the version-dependent presence of the fields - GIVEN that the element decoders invert the element encoders (assumed, R12)"})
     run.sample({"function": "CodeObj::from_bytes", "ensures": "total on every byte vector (a foreign first byte or short input is reported as a broken file), never grows the input, terminates (mutual recursion with deserialize_const proved with a lexicographic measure)"})
     unit.raw("""
 // @trusted: i32::unsigned_abs
@@ -239,7 +321,7 @@ def run(run, replay=None):
     run.fallbacks.append(("marshal writer/reader (boundary values, malformed inputs)", lambda: _cex.fallback(run)))
     run.explorations.append(("pyc read back", lambda: _cex.explore_files(run)))
     unit = build(run)
-    res = unit.run(rlimit=60)
+    res = unit.run(rlimit=400, multiple_errors=4)   # a broken field order fails every later stage: a few errors are enough, and enumerating all of them exhausts the solver
     run.add_verus(unit, res, cex_finder=lambda f: find_cex(run, f))
     from units.C15 import kani as k
     k.run_kani(run)
